@@ -128,6 +128,35 @@ CHECKS["C17"] = dict(technique="TLA+ specification as oracle for the decoding co
           "abnormal exit is a violation. net_if_addrs/net_if_stats are compared with /sys/class/net and if_nameindex live."),
     note="Memory safety is outside the expressive power of TLA+: absence of sanitizer reports covers only the enumerated input classes. Trusted base: TLC, the sanitizer runtimes, the live kernel's /sys/class/net.")
 
+CHECKS["C13"] = dict(technique=FN, category="model_checking", ref="DESIGN.md section 3 C13",
+    text=("ProcMem.tla: statm page counts and mapping lists (0-3, thorough 4, mappings over 3-7 paths, all 32 optional-line "
+          "subsets, roll-up present / ENOENT / ESRCH) -> memory_info, memory_full_info from both sources, ungrouped rows, grouped "
+          "row set and memory_percent as exact rationals; 8 conservation invariants (grouped = sum of ungrouped per field, "
+          "source independence) checked by TLC over 10k-83k inputs; every pair replayed over a task_mmu.c-faithful renderer "
+          "calibrated byte-for-byte against the live /proc/self/smaps; 3k-20k random records judged by TLC."),
+    note=TB)
+CHECKS["C14"] = dict(technique=FN, category="model_checking", ref="DESIGN.md section 3 C14",
+    text=("ProcFds.tla: descriptor tables (16 archetypes: regular/socket/pipe/anon/device/dir/relative, access modes 0-3 x "
+          "flag sets, offsets to 2^63-1, ' (deleted)' situations, three close points) and /proc/<pid>/io contents -> open_files, "
+          "num_fds, io_counters with an acceptance relation for the outcomes the statement leaves open; 8 invariants; 12k-74k "
+          "inputs enumerated by TLC and replayed (closing descriptors through before-access hooks); 4k-60k random lines and two "
+          "live-kernel records judged by TLC; 85 renderer facts calibrated against the live kernel each run."),
+    note=TB)
+CHECKS["C19"] = dict(technique=FN, category="model_checking", ref="DESIGN.md section 3 C19",
+    text=("Sensors.tla: hwmon chips/sensors/fans in both nestings, thermal zones with trip points, batteries and AC adapter, "
+          "cpufreq policies/offline CPUs, topology and /proc/stat -> the seven APIs as exact rationals with must/may entries "
+          "where the statement leaves a choice; 9 invariants; 9.5k-55k trees enumerated by TLC and replayed over simkernel's "
+          "sysfs for both import-time cpu_freq variants; 3.6k-28k random records judged by TLC, and TLC re-judges 20-50% of the "
+          "enumerated cases against the Python twin of the agreement relation."),
+    note=TB)
+CHECKS["C20"] = dict(technique="TLA+ decision table (Platform.tla) checked by TLC for totality/determinism and replayed row by row on every non-Linux platform module imported over stub native layers; recorded rows re-judged by TLC", category="model_checking", ref="DESIGN.md section 3 C20",
+    text=("Platform.tla: Expected/Allowed(platform, method, error, zombie listed, pid, pid 0 listed) written from the statement, "
+          "slot tables transcribed from the C sources' Py_BuildValue calls, documented named tuples and promised names per "
+          "platform; 14 meta-properties checked by TLC. 13k-17k error rows, 90 layout rows and 7 platform rows are replayed on "
+          "_psbsd/_psosx/_pssunos/_psaix/_pswindows and on the package front end (MAC padding, Windows broadcast, __all__) "
+          "imported in per-platform subprocesses over generated stub native modules with fault injection at the k-th native call."),
+    note="Trusted base: TLC; the platform stubs and the slot tables transcribed from the C sources (native C of those platforms is not executed). Three signed findings (NetBSD cmdline EINVAL, SunOS unlisted PID 0 x2).")
+
 PENDING = "check under construction in this round (see DESIGN.md section 6 work order)"
 NA = {}
 
